@@ -6,6 +6,7 @@ package kgsimhook
 import (
 	"runtime"
 	"sync/atomic"
+	"time"
 )
 
 // Hooks is implemented by the simulator's cooperative scheduler.
@@ -16,6 +17,10 @@ type Hooks interface {
 	Yield(site string)
 	// Blocked parks the calling sim thread because a lock it wants is held.
 	Blocked(site string)
+	// InBubble reports whether the run executes under a fake clock, where a
+	// goroutine that is not a sim thread may wait for a lock by sleeping fake
+	// time (a durable block) instead of blocking inside the runtime.
+	InBubble() bool
 }
 
 type holder struct{ h Hooks }
@@ -51,7 +56,17 @@ func Yield(site string) {
 // lock held by a parked sim thread; it parks at a "blocked" sim point instead.
 func LockF(lock func(), try func() bool, site string) {
 	h := get()
-	if h == nil || !h.IsSimThread() {
+	if h == nil {
+		lock()
+		return
+	}
+	if !h.IsSimThread() {
+		if h.InBubble() {
+			for !try() {
+				time.Sleep(time.Millisecond)
+			}
+			return
+		}
 		lock()
 		return
 	}
